@@ -195,6 +195,14 @@ func TestCheck(t *testing.T) {
 			"(fed by static values only, waiting for START / a node / a relay node / a branch; or its one mapped predecessor is never selected by a branch), alone and next to ordinary mapped nodes: "+
 			"every node must be handed the zero value of its input type plus its static values (plus what was mapped) in Invoke x3, Stream x2, Transform and Collect; 8% of them carry a static value that "+
 			"does not fit (refused by Compile, or every run returns an error); a quarter get one more static value on an overlapping path (must be refused). "+
+			"One case in 16 has a predecessor (lambda or START) whose output type is an interface (any, Shape) and a successor that takes its whole output and one or two of its fields in one AddInput call: "+
+			"the dynamic value is a container of 12 shapes or a scalar / slice / struct without the field / map with int keys / map without the key / nil / typed nil / look-alike struct (value due, error required, "+
+			"or error-or-unset by the reference; never a panic; Invoke x2, Stream, Transform, Collect; lambda, invoke-only lambda and END successors). "+
+			"One case in 16 declares a source path, a target path or a static value path that goes on below a pointer to an interface, a map, a scalar or a slice (field of a struct, of a nested / pointed-to / map-held struct, "+
+			"element of map[string]*any; controls: pointer to struct, any-typed field): refused by Compile, or every run delivers the reference value / returns an error. "+
+			"One case in 8 declares 1..4 field mappings and static values on a pass-through node that gets its type from the node it feeds (lambda, END, through a second pass-through node); 60% with one "+
+			"overlapping declaration (same spelling, promoted name vs embedded field, prefix): refused in every order of creating the nodes and declaring the inputs (each half of the pair compiles alone), "+
+			"the others run against the reference. "+
 			"Every case is compiled in all declaration orders (<=4 declarations; 24 random orders above), 3x each. Non-trivial = the declaration set overlaps and >=2 "+
 			"orders were compiled, or it does not overlap, was accepted, has >=2 declarations or a nested path, and two accepted orders were "+
 			"each run 3x with Invoke and 7x in stream mode (Stream, Transform, Collect; 3 chunkings; 4x with single chunks when the successor needs one assembled value), "+
@@ -253,12 +261,35 @@ func TestCheck(t *testing.T) {
 	rep.Require("static_only/node_inputs_equal_to_reference/stream", int64(cfg.Pick(500, 10000)))
 	rep.Require("static_only/overlapping_static_sets_rejected_in_every_order", int64(cfg.Pick(20, 400)))
 
+	rep.Require("iface_pred/sets_accepted_and_run", int64(cfg.Pick(100, 2000)))
+	rep.Require("iface_pred/sets_run/only-an-error-is-right", int64(cfg.Pick(20, 400)))
+	rep.Require("iface_pred/sets_run/value-due", int64(cfg.Pick(50, 1000)))
+	rep.Require("iface_pred/sets_run/START-is-the-predecessor", int64(cfg.Pick(10, 200)))
+	rep.Require("ptr_deadend/sets_total", int64(cfg.Pick(100, 2000)))
+	rep.Require("ptr_deadend/control_sets_accepted_and_run", int64(cfg.Pick(15, 300)))
+	rep.Require("pass_through/overlap_sets", int64(cfg.Pick(100, 2000)))
+	rep.Require("pass_through/nonoverlap_sets_accepted_and_run", int64(cfg.Pick(50, 1000)))
+	rep.Require("pass_through/runs_of_orders_in_which_p_is_typed_late", int64(cfg.Pick(50, 1000)))
+
 	ctx := context.Background()
-	n := int64(cfg.Pick(576, 57600))
+	n := int64(cfg.Pick(800, 72000))
 	rep.Cases(n, func(idx int64, rng *mon.Rand) {
-		if idx%8 == 7 {
+		switch idx % 16 {
+		case 7, 15:
 			// every eighth case: nodes fed by static values only (static_only_test.go)
 			runStaticCase(ctx, rep, rng, genStaticCase(rng), idx)
+			return
+		case 3:
+			// predecessor with an interface output type, whole-output and field mappings in one call (iface_pred_test.go)
+			runIfacePredCase(ctx, rep, rng, genIfacePredCase(rng), idx)
+			return
+		case 11:
+			// paths that go on below a pointer to an interface / map / scalar / slice (ptr_deadend_test.go)
+			runPtrDeadEndCase(ctx, rep, rng, genPtrDeadEndCase(rng), idx)
+			return
+		case 5, 13:
+			// field mappings and static values declared on a pass-through node (passthrough_overlap_test.go)
+			runPassCase(ctx, rep, rng, genPassCase(rng), idx)
 			return
 		}
 		c := genCase(rng)
